@@ -14,9 +14,17 @@ package main
 //
 // plus, from readRecordOrCCS, the guards of the ChangeCipherSpec and handshake cases and the
 // record-version comparison, and the Finished comparisons of both readFinished functions.
+//
+// Which BYTES enter the hash for a message that was received (trRaw*, trAddedTypes,
+// trReadHandshake*): `readHandshake(hash)` writes the `data` it decoded; a message read with
+// `nil` and added later goes through `transcriptMsg` -> `marshal()`, which returns the received
+// bytes only when `unmarshal` kept them in `raw` and `marshal` returns `raw` when it is set.
+// Otherwise the hash covers a re-encoding of the parsed fields, and bytes a decoder skips
+// (unknown extensions, ...) are not authenticated by Finished.
 
 import (
 	"go/ast"
+	"sort"
 	"strings"
 )
 
@@ -30,6 +38,11 @@ func init() {
 			"serverHandshakeState.doResumeHandshake", "serverHandshakeState.readFinished",
 			"serverHandshakeState.sendFinished", "Conn.readRecordOrCCS", "Conn.readHandshake",
 			"Conn.writeHandshakeRecord", "transcriptMsg")
+		// the codec methods that decide which bytes `transcriptMsg(decoded message)` hashes
+		for _, t := range []string{"clientHelloMsg", "serverHelloMsg", "certificateMsg", "serverKeyExchangeMsg",
+			"certificateRequestMsg", "serverHelloDoneMsg", "clientKeyExchangeMsg", "certificateVerifyMsg", "finishedMsg"} {
+			extraHashed[p] = append(extraHashed[p], t+".marshal", t+".unmarshal")
+		}
 	}
 }
 
@@ -134,6 +147,253 @@ func condContaining(p *pkg, key, sub string) (string, bool) {
 	return res, ok
 }
 
+// trRecvIdent: the name of the receiver variable of a method ("" when unnamed).
+func trRecvIdent(fd *ast.FuncDecl) string {
+	if fd == nil || fd.Recv == nil || len(fd.Recv.List) != 1 || len(fd.Recv.List[0].Names) != 1 {
+		return ""
+	}
+	return fd.Recv.List[0].Names[0].Name
+}
+
+// trKeepsRaw: does message type T keep the bytes it was decoded from, and give them back from
+// marshal()?  (a) the struct has a field `raw`; (b) the first statement of marshal is
+// `if m.raw != nil { return m.raw, nil }`; (c) unmarshal has exactly one statement that assigns
+// `m.raw` or `*m`, it is a direct statement of the body, and it is `m.raw = <param>` or
+// `*m = T{raw: <param>}`.
+func trKeepsRaw(p *pkg, t string) bool {
+	ts := p.types[t]
+	if ts == nil {
+		return false
+	}
+	st, ok := ts.Type.(*ast.StructType)
+	if !ok {
+		return false
+	}
+	hasRaw := false
+	for _, f := range st.Fields.List {
+		for _, n := range f.Names {
+			if n.Name == "raw" {
+				hasRaw = true
+			}
+		}
+	}
+	if !hasRaw {
+		return false
+	}
+	mf, uf := p.funcs[t+".marshal"], p.funcs[t+".unmarshal"]
+	if mf == nil || uf == nil || mf.Body == nil || uf.Body == nil || len(mf.Body.List) == 0 {
+		return false
+	}
+	mr := trRecvIdent(mf)
+	is, ok := mf.Body.List[0].(*ast.IfStmt)
+	if !ok || is.Init != nil || is.Else != nil || p.src(is.Cond) != mr+".raw != nil" || len(is.Body.List) != 1 {
+		return false
+	}
+	if p.src(is.Body.List[0]) != "return "+mr+".raw, nil" {
+		return false
+	}
+	ur := trRecvIdent(uf)
+	if uf.Type.Params == nil || len(uf.Type.Params.List) != 1 || len(uf.Type.Params.List[0].Names) != 1 {
+		return false
+	}
+	param := uf.Type.Params.List[0].Names[0].Name
+	// every assignment that touches m.raw or *m (anywhere in the body)
+	n := 0
+	ast.Inspect(uf.Body, func(x ast.Node) bool {
+		if as, ok := x.(*ast.AssignStmt); ok {
+			for _, l := range as.Lhs {
+				if s := p.src(l); s == ur+".raw" || s == "*"+ur {
+					n++
+				}
+			}
+		}
+		return true
+	})
+	if n != 1 {
+		return false
+	}
+	for _, s := range uf.Body.List {
+		as, ok := s.(*ast.AssignStmt)
+		if !ok || len(as.Lhs) != 1 || len(as.Rhs) != 1 {
+			continue
+		}
+		switch p.src(as.Lhs[0]) {
+		case ur + ".raw":
+			return p.src(as.Rhs[0]) == param
+		case "*" + ur:
+			return p.src(as.Rhs[0]) == t+"{raw: "+param+"}"
+		}
+	}
+	return false
+}
+
+// trMsgTypeOf resolves the message type of a transcriptMsg argument inside function fd:
+// `hs.X` through the field X of the receiver's struct, a local through its declaration
+// (`X, ok := msg.(*T)`, `X := &T{…}`, `X := new(T)`, `var X *T`). "?" when unresolved.
+func trMsgTypeOf(p *pkg, fd *ast.FuncDecl, arg ast.Expr) string {
+	star := func(e ast.Expr) string {
+		if s, ok := e.(*ast.StarExpr); ok {
+			if id, ok := s.X.(*ast.Ident); ok {
+				return id.Name
+			}
+		}
+		return "?"
+	}
+	switch a := arg.(type) {
+	case *ast.SelectorExpr:
+		x, ok := a.X.(*ast.Ident)
+		if !ok || fd.Recv == nil || len(fd.Recv.List) != 1 || trRecvIdent(fd) != x.Name {
+			return "?"
+		}
+		ts := p.types[recvName(fd.Recv.List[0].Type)]
+		if ts == nil {
+			return "?"
+		}
+		st, ok := ts.Type.(*ast.StructType)
+		if !ok {
+			return "?"
+		}
+		for _, f := range st.Fields.List {
+			for _, n := range f.Names {
+				if n.Name == a.Sel.Name {
+					return star(f.Type)
+				}
+			}
+		}
+	case *ast.Ident:
+		res := "?"
+		ast.Inspect(fd.Body, func(x ast.Node) bool {
+			switch s := x.(type) {
+			case *ast.AssignStmt:
+				if len(s.Lhs) >= 1 && len(s.Rhs) == 1 && p.src(s.Lhs[0]) == a.Name && res == "?" {
+					switch r := s.Rhs[0].(type) {
+					case *ast.TypeAssertExpr:
+						if r.Type != nil {
+							res = star(r.Type)
+						}
+					case *ast.UnaryExpr:
+						if cl, ok := r.X.(*ast.CompositeLit); ok {
+							if id, ok := cl.Type.(*ast.Ident); ok {
+								res = id.Name
+							}
+						}
+					case *ast.CallExpr:
+						if id, ok := r.Fun.(*ast.Ident); ok && id.Name == "new" && len(r.Args) == 1 {
+							if t, ok := r.Args[0].(*ast.Ident); ok {
+								res = t.Name
+							}
+						}
+					}
+				}
+			case *ast.ValueSpec:
+				for _, n := range s.Names {
+					if n.Name == a.Name && s.Type != nil && res == "?" {
+						res = star(s.Type)
+					}
+				}
+			}
+			return true
+		})
+		return res
+	}
+	return "?"
+}
+
+func trEmitRawFacts(e *emitter, p *pkg, fnKeys []string) {
+	e.comment("which bytes of a RECEIVED message enter finishedHash (C03)")
+	var codec, kept []string
+	for name := range p.types {
+		if p.funcs[name+".marshal"] != nil && p.funcs[name+".unmarshal"] != nil {
+			codec = append(codec, name)
+			if trKeepsRaw(p, name) {
+				kept = append(kept, name)
+			}
+		}
+	}
+	sort.Strings(codec)
+	sort.Strings(kept)
+	e.strList("trMsgCodecTypes", codec)
+	e.strList("trRawKeptTypes", kept)
+	// the message types handed to transcriptMsg by the handshake functions
+	seen := map[string]bool{}
+	var added []string
+	for _, key := range fnKeys {
+		fd := p.funcs[key]
+		if fd == nil || fd.Body == nil {
+			continue
+		}
+		ast.Inspect(fd.Body, func(n ast.Node) bool {
+			call, ok := n.(*ast.CallExpr)
+			if !ok || len(call.Args) != 2 {
+				return true
+			}
+			if id, ok := call.Fun.(*ast.Ident); ok && id.Name == "transcriptMsg" {
+				t := trMsgTypeOf(p, fd, call.Args[0])
+				if !seen[t] {
+					seen[t] = true
+					added = append(added, t)
+				}
+			}
+			return true
+		})
+	}
+	sort.Strings(added)
+	e.strList("trAddedTypes", added)
+	// assignments to some `.raw` outside the codec methods (a reset makes marshal re-encode)
+	var resets []string
+	var keys []string
+	for k := range p.funcs {
+		keys = append(keys, k)
+	}
+	sort.Strings(keys)
+	for _, k := range keys {
+		fd := p.funcs[k]
+		// setMessageSeq (datagram stack) drops `raw` by design; its CALLS are listed instead
+		if fd.Body == nil || strings.HasSuffix(k, ".marshal") || strings.HasSuffix(k, ".unmarshal") || strings.HasSuffix(k, ".setMessageSeq") {
+			continue
+		}
+		ast.Inspect(fd.Body, func(n ast.Node) bool {
+			switch x := n.(type) {
+			case *ast.AssignStmt:
+				for _, l := range x.Lhs {
+					if se, ok := l.(*ast.SelectorExpr); ok && se.Sel.Name == "raw" {
+						resets = append(resets, k+":"+p.src(l))
+					}
+				}
+			case *ast.CallExpr:
+				if se, ok := x.Fun.(*ast.SelectorExpr); ok && se.Sel.Name == "setMessageSeq" {
+					resets = append(resets, k+":"+p.src(se.X)+".setMessageSeq")
+				}
+			}
+			return true
+		})
+	}
+	e.strList("trRawResets", resets)
+	// readHandshake: what it decodes and what it writes into the hash it was given
+	var wr, un []string
+	if fd := p.funcs["Conn.readHandshake"]; fd != nil && fd.Body != nil {
+		ast.Inspect(fd.Body, func(n ast.Node) bool {
+			call, ok := n.(*ast.CallExpr)
+			if !ok {
+				return true
+			}
+			if se, ok := call.Fun.(*ast.SelectorExpr); ok && len(call.Args) == 1 {
+				switch {
+				case se.Sel.Name == "Write" && p.src(se.X) == "transcript":
+					wr = append(wr, p.src(call.Args[0]))
+				case se.Sel.Name == "unmarshal":
+					un = append(un, p.src(call.Args[0]))
+				}
+			}
+			return true
+		})
+	} else {
+		e.missing = append(e.missing, e.key("trReadHandshakeHashed"))
+	}
+	e.strList("trReadHandshakeHashed", wr)
+	e.strList("trReadHandshakeDecoded", un)
+}
+
 func emitTranscript(e *emitter, p *pkg) {
 	if p.name != "tlcp" && p.name != "dtlcp" {
 		return
@@ -155,6 +415,11 @@ func emitTranscript(e *emitter, p *pkg) {
 		{"trServerReadFinished", "serverHandshakeState.readFinished"},
 		{"trServerSendFinished", "serverHandshakeState.sendFinished"},
 	}
+	var fnKeys []string
+	for _, f := range fns {
+		fnKeys = append(fnKeys, f.key)
+	}
+	trEmitRawFacts(e, p, fnKeys)
 	for _, f := range fns {
 		calls, ok := trCalls(p, f.key)
 		if !ok {
